@@ -51,6 +51,34 @@ def p_attr_item(o, d):
     o.v += 1
     return o.v, sorted(d, key=str)
 
+class Traced:
+    """Every load / store of an attribute or an item is a visible effect."""
+    def __init__(self): object.__setattr__(self, "_d", {"v": 1, 3: 10})
+    def __getattr__(self, n): note(("getattr", n)); return self._d[n]
+    def __setattr__(self, n, v): note(("setattr", n, v)); self._d[n] = v
+    def __getitem__(self, i): note(("getitem", i)); return self._d[i]
+    def __setitem__(self, i, v): note(("setitem", i, v)); self._d[i] = v
+    def __repr__(self): return f"Traced({self._d})"
+
+def p_aug_member(o, k):
+    o.v += note(5)
+    o[note(3)] += note(7)
+    o[k] += (k := note(100))
+    o = (o, o.v)[0]
+    return o._d, k
+
+def p_match(p):
+    match p:
+        case [a, *rest] if note(("guard", a)):
+            return note(("seq", a, rest))
+        case {"k": v, **others}:
+            return note(("map", v, others))
+        case str() as s:
+            return note(("str", s))
+        case (x, y) | [x, y, _]:
+            return x + y
+    return note("none")
+
 def p_closure_factory(k):
     n = 0
     def inner(a):
@@ -209,6 +237,11 @@ def _cases(mod):
         ("p_unpack_error", mod.p_unpack_error, lambda: ((1, 2, 3),), None),
         ("p_aug", mod.p_aug, lambda: ([0], 3), None),
         ("p_attr_item", mod.p_attr_item, lambda: (Obj(), {}), None),
+        ("p_aug_member", mod.p_aug_member, lambda: (mod.Traced(), 3), None),
+        ("p_match_seq", mod.p_match, lambda: ([1, 2, 3],), None),
+        ("p_match_map", mod.p_match, lambda: ({"k": 1, "z": 2},), None),
+        ("p_match_str", mod.p_match, lambda: ("text",), None),
+        ("p_match_none", mod.p_match, lambda: (5,), None),
         ("p_closure", mod.p_closure_factory(2), lambda: (5,), None),
         ("p_closure_defaults", mod.p_closure_defaults_factory(3), lambda: (1,), None),
         ("p_closure_defaults_kw", mod.p_closure_defaults_factory(3), lambda: (1, 9), {"bias": 0}),
